@@ -135,6 +135,16 @@ func c17Invariants(c *core.Ctx, raw string, u *stun.URI) bool {
 
 		return false
 	}
+	if secure := u.Scheme == stun.SchemeTypeSTUNS || u.Scheme == stun.SchemeTypeTURNS; u.IsSecure() != secure {
+		c.Violate("wrong-components", "invariant:IsSecure", detail)
+
+		return false
+	}
+	if stun.NewProtoType(u.Proto.String()) != u.Proto || stun.NewSchemeType(u.Scheme.String()) != u.Scheme {
+		c.Violate("wrong-components", "invariant:names", detail)
+
+		return false
+	}
 	if u.Proto != stun.ProtoTypeUDP && u.Proto != stun.ProtoTypeTCP {
 		c.Violate("accepted-without-transport", "invariant:proto", detail)
 
